@@ -153,7 +153,7 @@ def invoke(fid: str, kwargs: dict[str, Any], res: Any = None) -> Any:
         # a custom output_picker: the function returns a mapping keyed by the (final) output names, listed in REVERSED
         # order so that a positional pick would be wrong
         res = {o: value(o) for o in reversed(outs)}
-    elif fd.get("rettuple") and len(outs) == 1 and not ishape:
+    elif fd.get("rettuple") and len(outs) == 1 and not ishape and not fd.get("dataclass"):
         # the single result is itself a tuple (bounds, a shape, a (mean, std) pair): still ONE value for ONE output name
         from .terms import tuple_term
         res = tuple_term(value(outs[0]))
